@@ -670,6 +670,9 @@ package httpserver
 //@   requires (r.responseRecorder != nil ==> r.responseRecorder.ResponseWriterWrapper != nil) && r.requestBody != nil
 //@ // package-level strings.Replacer built by its initialiser
 //@ invariant requestReplacer != nil
+//@ // lookups in another package's tables: frame-empty (explicit assumptions)
+//@ extern github.com/tmpim/casket/caskettls.GetSupportedCipherName
+//@ extern github.com/tmpim/casket/caskettls.GetSupportedProtocolName
 //@ func (*replacer).getPeerCert
 //@   requires r != nil && r.request != nil
 //@ func (*replacer).Set
